@@ -127,6 +127,95 @@ fn accessor_checks(rep: &Report, d: &D, form: KeyForm, cen: &mut Census) {
     if c.desc.unsigned_script_sig().as_bytes() != &uss[..] {
         viol("unsigned_script_sig", format!("{} vs reference {}", hex(c.desc.unsigned_script_sig().as_bytes()), hex(&uss)));
     }
+    // desc_type, the wrapper types' own accessors and the alternative constructors
+    {
+        use miniscript::descriptor::{DescriptorType, ShInner};
+        use miniscript::Descriptor as DD;
+        let exp_ty = match d {
+            D::Bare(_) => DescriptorType::Bare,
+            D::Pkh(_) => DescriptorType::Pkh,
+            D::Wpkh(_) => DescriptorType::Wpkh,
+            D::ShWpkh(_) => DescriptorType::ShWpkh,
+            D::Sh(_) => DescriptorType::Sh,
+            D::Wsh(_) => DescriptorType::Wsh,
+            D::ShWsh(_) => DescriptorType::ShWsh,
+            D::Tr(..) => DescriptorType::Tr,
+        };
+        if c.desc.desc_type() != exp_ty {
+            viol("desc_type", format!("desc_type() = {:?} expected {:?}", c.desc.desc_type(), exp_ty));
+        }
+        let (t_spk, t_inner, t_code): (Vec<u8>, Option<Vec<u8>>, Option<Vec<u8>>) = match &c.desc {
+            DD::Bare(b) => (b.script_pubkey().into_bytes(), Some(b.inner_script().into_bytes()), Some(b.ecdsa_sighash_script_code().into_bytes())),
+            DD::Pkh(b) => (b.script_pubkey().into_bytes(), Some(b.inner_script().into_bytes()), Some(b.ecdsa_sighash_script_code().into_bytes())),
+            DD::Wpkh(b) => (b.script_pubkey().into_bytes(), Some(b.inner_script().into_bytes()), Some(b.ecdsa_sighash_script_code().into_bytes())),
+            DD::Wsh(b) => (b.script_pubkey().into_bytes(), Some(b.inner_script().into_bytes()), Some(b.ecdsa_sighash_script_code().into_bytes())),
+            DD::Sh(b) => (b.script_pubkey().into_bytes(), Some(b.inner_script().into_bytes()), Some(b.ecdsa_sighash_script_code().into_bytes())),
+            DD::Tr(b) => (b.script_pubkey().into_bytes(), None, None),
+        };
+        if t_spk != spk {
+            viol("type-script_pubkey", format!("the wrapper type's script_pubkey() is {}", hex(&t_spk)));
+        }
+        if let (Some(a), Some(b)) = (&t_inner, &explicit) {
+            if a != b {
+                viol("type-inner_script", format!("inner_script() {} vs reference explicit script {}", hex(a), hex(b)));
+            }
+        }
+        if let (Some(a), Some(b)) = (&t_code, &code) {
+            if a != b {
+                viol("type-script_code", format!("ecdsa_sighash_script_code() {} vs reference {}", hex(a), hex(b)));
+            }
+        }
+        // alternative constructors build the same descriptor
+        let alt: Option<Result<DD<DefiniteDescriptorKey>, miniscript::Error>> = match &c.desc {
+            DD::Sh(sh) => match sh.as_inner() {
+                ShInner::Wsh(w) => Some(Ok(DD::new_sh_with_wsh(w.clone()))),
+                ShInner::Wpkh(w) => Some(Ok(DD::new_sh_with_wpkh(w.clone()))),
+                ShInner::Ms(ms) => match &ms.node {
+                    miniscript::Terminal::SortedMulti(th) => Some(DD::new_sh_sortedmulti(th.clone())),
+                    _ => Some(DD::new_sh(ms.clone())),
+                },
+            },
+            DD::Wsh(w) => match &w.as_inner().node {
+                miniscript::Terminal::SortedMulti(th) => Some(DD::new_wsh_sortedmulti(th.clone())),
+                _ => Some(DD::new_wsh(w.as_inner().clone())),
+            },
+            _ => None,
+        };
+        if let Some(a) = alt {
+            match a {
+                Ok(a) => {
+                    if a != c.desc || a.script_pubkey() != c.spk {
+                        viol("alternative-constructor", format!("alternative constructor gives {}", a));
+                    } else {
+                        bump(cen, "alternative_constructors_ok");
+                    }
+                }
+                Err(e) => viol("alternative-constructor-fails", e.to_string()),
+            }
+        }
+        if let (D::ShWsh(_), DD::Sh(sh)) = (d, &c.desc) {
+            if let ShInner::Wsh(w) = sh.as_inner() {
+                let a = match &w.as_inner().node {
+                    miniscript::Terminal::SortedMulti(th) => DD::new_sh_wsh_sortedmulti(th.clone()),
+                    _ => DD::new_sh_wsh(w.as_inner().clone()),
+                };
+                match a {
+                    Ok(a) if a == c.desc => bump(cen, "alternative_constructors_ok"),
+                    Ok(a) => viol("alternative-constructor", format!("new_sh_wsh* gives {}", a)),
+                    Err(e) => viol("alternative-constructor-fails", e.to_string()),
+                }
+            }
+        }
+        if let D::ShWpkh(k) = d {
+            let env = crate::keys::DefEnv { form, with_origin: true };
+            use crate::ast::Env;
+            match DD::new_sh_wpkh(env.pk(k)) {
+                Ok(a) if a == c.desc => bump(cen, "alternative_constructors_ok"),
+                Ok(a) => viol("alternative-constructor", format!("new_sh_wpkh gives {}", a)),
+                Err(e) => viol("alternative-constructor-fails", e.to_string()),
+            }
+        }
+    }
     for net in [Network::Bitcoin, Network::Testnet, Network::Signet, Network::Regtest] {
         bump(cen, "address_evaluations");
         match (c.desc.address(net), matches!(d, D::Bare(_))) {
@@ -223,6 +312,53 @@ fn derivation_checks(rep: &Report, cen: &mut Census) {
                 for wild in ["", "/*", "/*'", "/*h"] {
                     let path_s: String = steps.iter().map(|s| format!("/{}", s)).collect();
                     let kstr = format!("{}{}{}{}", o(xk), xk.s, path_s, wild);
+                    // the key expression's own accessors
+                    if let Ok(Ok(k)) = guard(|| DescriptorPublicKey::from_str(&kstr)) {
+                        bump(cen, "key_accessor_checks");
+                        let origin_idx = origins.iter().position(|f| f(xk) == o(xk)).unwrap();
+                        let origin_path: Vec<String> = match origin_idx { 2 => vec!["44'".into(), "0'".into(), "7".into()], _ => vec![] };
+                        let exp_path: Vec<String> = origin_path.iter().cloned().chain(steps.iter().map(|s| s.to_string())).collect();
+                        let exp_fp = if origin_idx == 0 { xk.xpub.fingerprint().to_string() } else { xk.fp.clone() };
+                        let mut kviol = |class: &str, what: String| {
+                            rep.violation(Violation {
+                                key: format!("C16|key-{}|{}", class, kstr),
+                                class: format!("key-accessor-{}", class),
+                                what,
+                                case: json!({"key": kstr}),
+                            });
+                        };
+                        if k.has_wildcard() == wild.is_empty() {
+                            kviol("has_wildcard", format!("has_wildcard() = {}", k.has_wildcard()));
+                        }
+                        if k.is_multipath() {
+                            kviol("is_multipath", "single-path key reported as multipath".into());
+                        }
+                        if k.master_fingerprint().to_string() != exp_fp {
+                            kviol("master_fingerprint", format!("{} expected {}", k.master_fingerprint(), exp_fp));
+                        }
+                        match k.full_derivation_path() {
+                            Some(p) => {
+                                let got: Vec<String> = p.into_iter().map(|c| c.to_string()).collect();
+                                if got != exp_path {
+                                    kviol("full_derivation_path", format!("{:?} expected {:?}", got, exp_path));
+                                }
+                            }
+                            None => kviol("full_derivation_path", "None for a single-path key".into()),
+                        }
+                        let fps = k.full_derivation_paths();
+                        if fps.len() != 1 {
+                            kviol("full_derivation_paths", format!("{} paths for a single-path key", fps.len()));
+                        }
+                        let singles = k.clone().into_single_keys();
+                        if singles.len() != 1 || singles[0] != k {
+                            kviol("into_single_keys", "single-path key does not split into itself".into());
+                        }
+                        // "a hardened step in the path": the steps after the xpub here are all
+                        // unhardened; a hardened wildcard is not a path step
+                        if k.has_hardened_step() {
+                            kviol("has_hardened_step", "has_hardened_step() = true although no step after the xpub is hardened".into());
+                        }
+                    }
                     for (wname, wrap, spk_of) in &wraps {
                         let ds = wrap(&kstr);
                         bump(cen, "derivation_descriptors");
